@@ -31,8 +31,8 @@ package main
 import (
 	"bufio"
 	"context"
-	"fmt"
 	"errors"
+	"fmt"
 	"math/rand"
 	"os"
 	"strconv"
@@ -191,25 +191,25 @@ func (w *c17World) afterBroadcast() string {
 		return ""
 	}
 	if vigil.VerifCount(w.v) <= 0 {
-		deadline := time.After(1500 * time.Millisecond) // returns as soon as they are back
+		deadline := time.After(HxScale(1500 * time.Millisecond)) // returns as soon as they are back
 		for _, x := range asleep {
 			select {
 			case <-x.done:
 				x.state = 'd'
 			case <-deadline:
 				w.timeout()
-				return " unwoken=" + strconv.Itoa(x.n)
+				return " timeout-unwoken=" + strconv.Itoa(x.n)
 			}
 		}
 		return ""
 	}
 	for range asleep {
-		if !w.waitEvent("checked", 1500*time.Millisecond) {
+		if !w.waitEvent("checked", HxScale(1500*time.Millisecond)) {
 			w.timeout()
-			return " unwoken"
+			return " timeout-unwoken"
 		}
 	}
-	if !w.waitLockFree(time.Second) {
+	if !w.waitLockFree(HxScale(time.Second)) {
 		w.timeout()
 		return " lock-stuck"
 	}
@@ -234,9 +234,9 @@ func (w *c17World) cleanup() {
 	go func() { w.ceaseWG.Wait(); close(fin) }()
 	select {
 	case <-fin:
-	case <-time.After(time.Second):
+	case <-time.After(HxScale(time.Second)):
 	}
-	deadline := time.Now().Add(400 * time.Millisecond)
+	deadline := time.Now().Add(HxScale(400 * time.Millisecond))
 	for {
 		for vigil.VerifCount(w.v) > 0 {
 			w.v.CeaseVigil()
@@ -284,10 +284,10 @@ func c17CloseFail() string {
 	go func() { inst.Close(); close(fin) }()
 	select {
 	case <-fin:
-	case <-time.After(3 * time.Second):
-		return "closefail close-hangs"
+	case <-time.After(HxScale(3 * time.Second)):
+		return "closefail close-hang"
 	}
-	ctx, cancel := context.WithTimeout(context.Background(), 500*time.Millisecond)
+	ctx, cancel := context.WithTimeout(context.Background(), HxScale(500*time.Millisecond))
 	defer cancel()
 	if err := inst.WaitForGracefulClose(ctx); err != nil {
 		// make sure the instance's goroutines end anyway
@@ -433,7 +433,7 @@ func runC17(in *bufio.Scanner, out *bufio.Writer) {
 				fmt.Fprintln(out, "skip")
 				break
 			}
-			time.Sleep(5 * time.Millisecond) // everybody in the line has starved for > 1 ms: FIFO hand-over
+			time.Sleep(HxScale(5 * time.Millisecond)) // everybody in the line has starved for > 1 ms: FIFO hand-over
 			rel := w.muRelease
 			w.muRelease = nil
 			w.mu.Lock()
@@ -448,7 +448,7 @@ func runC17(in *bufio.Scanner, out *bufio.Writer) {
 					continue
 				}
 				if who == "c" {
-					if w.waitEvent("dec", 3*time.Second) {
+					if w.waitEvent("dec", HxScale(3*time.Second)) {
 						w.heldC++
 						w.blockedC--
 						res = append(res, "c:held")
@@ -471,7 +471,7 @@ func runC17(in *bufio.Scanner, out *bufio.Writer) {
 					} else {
 						res = append(res, who+":"+ev)
 					}
-				case <-time.After(3 * time.Second):
+				case <-time.After(HxScale(3 * time.Second)):
 					w.timeout()
 					res = append(res, who+":timeout")
 				}
@@ -497,9 +497,9 @@ func runC17(in *bufio.Scanner, out *bufio.Writer) {
 			w.open--
 			w.ceaseWG.Add(1)
 			go func(v vigil.Vigil, cw *c17World) { defer cw.ceaseWG.Done(); v.CeaseVigil(); cw.ceaseFin.Add(1) }(w.v, w)
-			d := 3 * time.Second
+			d := HxScale(3 * time.Second)
 			if w.lockHeld() || w.muRelease != nil {
-				d = 100 * time.Millisecond // with the mutex around the decrement it cannot get there now
+				d = HxScale(100 * time.Millisecond) // with the mutex around the decrement it cannot get there now
 			}
 			res := "held"
 			if w.waitEvent("dec", d) {
@@ -537,7 +537,7 @@ func runC17(in *bufio.Scanner, out *bufio.Writer) {
 			before := w.ceaseFin.Load()
 			close(ch)
 			// the Broadcast has happened once that CeaseVigil call has returned
-			for dl := time.Now().Add(3 * time.Second); w.ceaseFin.Load() == before; {
+			for dl := time.Now().Add(HxScale(3 * time.Second)); w.ceaseFin.Load() == before; {
 				if time.Now().After(dl) {
 					w.timeout()
 					break
@@ -563,7 +563,7 @@ func runC17(in *bufio.Scanner, out *bufio.Writer) {
 				case <-x.done:
 					x.state = 'd'
 					fmt.Fprintf(out, "wait %d done %s\n", x.n, w.stateNoLock())
-				case <-time.After(100 * time.Millisecond):
+				case <-time.After(HxScale(100 * time.Millisecond)):
 					x.state = 'q'
 					w.muQueue = append(w.muQueue, strconv.Itoa(x.n))
 					fmt.Fprintf(out, "wait %d queued %s\n", x.n, w.stateNoLock())
@@ -571,7 +571,7 @@ func runC17(in *bufio.Scanner, out *bufio.Writer) {
 				break
 			}
 			res := ""
-			deadline := time.After(3 * time.Second)
+			deadline := time.After(HxScale(3 * time.Second))
 		loop:
 			for {
 				select {
@@ -610,7 +610,7 @@ func runC17(in *bufio.Scanner, out *bufio.Writer) {
 			res := "parked"
 			// CeaseVigil calls that were waiting for the mutex get it once the waiter sleeps
 			for w.blockedC > 0 {
-				if !w.waitEvent("dec", 3*time.Second) {
+				if !w.waitEvent("dec", HxScale(3*time.Second)) {
 					w.timeout()
 					res = "unexpected-timeout"
 					break
@@ -618,7 +618,7 @@ func runC17(in *bufio.Scanner, out *bufio.Writer) {
 				w.blockedC--
 				w.heldC++
 			}
-			if !w.waitLockFree(3 * time.Second) {
+			if !w.waitLockFree(HxScale(3 * time.Second)) {
 				w.timeout()
 				res = "unexpected-lock-stuck"
 			}
@@ -646,7 +646,7 @@ func runC17(in *bufio.Scanner, out *bufio.Writer) {
 						select {
 						case <-x.done:
 							x.state, res = 'd', "done"
-						case <-time.After(250 * time.Millisecond):
+						case <-time.After(HxScale(250 * time.Millisecond)):
 							res = "stuck"
 						}
 					}
@@ -749,7 +749,7 @@ func c17Rpcs() string {
 			select {
 			case <-fin:
 				dead = strconv.FormatInt(swamp.VerifVigilCount(inst), 10)
-			case <-time.After(3 * time.Second):
+			case <-time.After(HxScale(3 * time.Second)):
 				// the handler is stuck in Destroy's drain, waiting for its own vigil
 				dead = "hang"
 				inst.CeaseVigil()
